@@ -30,6 +30,7 @@ pub trait LFloat:
     fn bits64(self) -> u64;
     fn from_bits64(b: u64) -> Self;
     fn std_parse(s: &str) -> Option<Self>;
+    fn std_fmt_e(self) -> String;
 }
 impl LFloat for f64 {
     const KIND: Kind = F64;
@@ -42,6 +43,9 @@ impl LFloat for f64 {
     fn std_parse(s: &str) -> Option<f64> {
         s.parse().ok()
     }
+    fn std_fmt_e(self) -> String {
+        format!("{self:e}")
+    }
 }
 impl LFloat for f32 {
     const KIND: Kind = F32;
@@ -53,6 +57,9 @@ impl LFloat for f32 {
     }
     fn std_parse(s: &str) -> Option<f32> {
         s.parse().ok()
+    }
+    fn std_fmt_e(self) -> String {
+        format!("{self:e}")
     }
 }
 
@@ -122,4 +129,20 @@ pub fn show_r_float<T: LFloat>(r: &R<T>) -> String {
         R::Err(e) => format!("Err({e:?})"),
         R::Panic(p) => format!("Panic({p})"),
     }
+}
+
+/// write with the default API into an exact-size guarded buffer; returns the bytes written
+pub fn write_default<T: lexical_core::ToLexical + Copy>(arena: &mut Arena, v: T, len: usize, place: Place) -> Result<Vec<u8>, String> {
+    let buf = arena.output(len, place, 0x5a);
+    catch(|| lexical_core::write(v, buf).to_vec())
+}
+pub fn write_opt<T: lexical_core::ToLexicalWithOptions + Copy, const FORMAT: u128>(
+    arena: &mut Arena,
+    v: T,
+    len: usize,
+    place: Place,
+    opts: &T::Options,
+) -> Result<Vec<u8>, String> {
+    let buf = arena.output(len, place, 0x5a);
+    catch(|| lexical_core::write_with_options::<T, FORMAT>(v, buf, opts).to_vec())
 }
